@@ -51,6 +51,8 @@ NA = {
  "C20": "shift-equivariance / resolution consistency are DFT theorems about torch.fft in complex floating point; a contract on _FourierLayer.forward could only restate them as axioms of an external library (DESIGN 4/C20)",
 }
 NOT_YET = "not reached yet by the tpv engine in this session (see DESIGN 9: a property whose obligations are not generated is not claimed)"
+for _p in ("C04", "C08", "C12", "C14"):
+    CLAIMED[_p]["cat"] = "other"  # every obligation is schematic in a structure size -> not counted as proof
 props = [json.loads(l)["id"] for l in open(os.path.join(V, "properties.jsonl"))]
 checks = []
 for p in props:
